@@ -51,6 +51,19 @@ def plan(tier, seed):
                   "n": n, "delta": 2.0**-44, "lr": 1.0, "sketch": sk,
                   "gscale": 2.0**-24, "depth": depth,
                   "profile": {"x64": True}, "part": "sketched"})
+  # the closed forms and the sketched invariants are scale free as well:
+  # every algorithm on gradients times 2^-12 / 2^-24 with delta 0 and 2^-44
+  for alg, sk in [("OGD", 0), ("ADA", 0), ("ADA_FD", 2), ("FD_SON", 2),
+                  ("RFD_SON", 2), ("S_ADA", 2)]:
+    for gsc in [2.0**-12, 2.0**-24]:
+      for delta in [0.0, 2.0**-44]:
+        if alg == "S_ADA" and gsc == 2.0**-24 and delta:
+          continue
+        tasks.append({"name": "%s/tiny%g/n3/l%d/d%g" % (alg, gsc, sk, delta),
+                      "alg": alg, "n": 3, "delta": delta, "lr": 1.0,
+                      "sketch": sk, "gscale": gsc, "depth": depth,
+                      "profile": {"x64": True},
+                      "part": "sketched" if sk else "closed_form"})
   for alg, sk in [("OGD", 0), ("ADA", 0), ("S_ADA", 3), ("S_ADA", 2)]:
     for n in [3, 4]:
       tasks.append({"name": "train/%s/n%d/l%d" % (alg, n, sk), "kind": "train",
